@@ -231,7 +231,33 @@ def run_cases(cases, result, sample_every=None, batch=4000):
         buf = []
         nlines = 0
 
-    for idx, c in cases:
+    def guarded(it):
+        """an exception that escapes from the IMPLEMENTATION while the harness prepares a case (innermost frame in /repo)
+        is an outcome, not an infrastructure problem: it becomes a failing case of its own and ends the generation"""
+        import traceback as _tb
+        last = [None]
+        while True:
+            try:
+                idx, c = next(it)
+            except StopIteration:
+                return
+            except Exception as e:
+                frames = _tb.extract_tb(e.__traceback__)
+                repo = os.path.realpath(os.environ.get("VERIF_REPO", "/repo"))
+                if not frames or not os.path.realpath(frames[-1].filename).startswith(repo + os.sep):
+                    raise
+                nidx = (last[0] + 1) if last[0] is not None else 0
+                l = Line("pred", "echo_tree", ["L 1 e n n n n n n n n n"], note="the implementation raised %s: %s at %s:%d (%s) while the case after index %s was prepared"
+                         % (type(e).__name__, e, os.path.relpath(frames[-1].filename, repo), frames[-1].lineno, frames[-1].name, last[0]))
+                l.expect = "implementation-must-not-raise-on-this-input"
+                c = Case("implementation-raised", {"exception": type(e).__name__, "message": str(e),
+                                                    "traceback": ["%s:%d %s" % (f.filename, f.lineno, f.name) for f in frames[-6:]]}, [l])
+                yield nidx, c
+                return
+            last[0] = idx
+            yield idx, c
+
+    for idx, c in guarded(iter(cases)):
         c.index = idx
         result.evaluations += 1
         result.lines += len(c.lines)
